@@ -407,6 +407,32 @@ def S_table_attr_column(Q, n):
     return Q.from_(t).select(t[n], t.field(n))  # (attribute access is not used: names of methods are methods)
 
 
+def S_table_getattr_column(Q, n):
+    """Attribute access on a table (and on a derived table) names the column spelt exactly like the attribute."""
+    t = _r()["Table"]("t")
+    def col(src):  # (names of real attributes and methods are not columns: those go through field())
+        real = n.startswith("__") or hasattr(type(src), n) or n in vars(src)
+        return src.field(n) if real else getattr(src, n)
+    inner = Q.from_(t).select(col(t)).as_("i1")
+    return Q.from_(inner).select(col(inner))
+
+
+def S_groupby_str(Q, n):
+    t = _r()["Table"]("t")
+    return Q.from_(t).select(n).groupby(n)
+
+
+def S_orderby_str(Q, n):
+    t = _r()["Table"]("t")
+    return Q.from_(t).select(n).orderby(n)
+
+
+def S_groupby_str_join(Q, n):
+    r = _r()
+    t, u = r["Table"]("t"), r["Table"]("u")
+    return Q.from_(t).join(u).on(t.id == u.id).select(t.a).groupby(n).orderby(n)
+
+
 def S_index_object(Q, n):
     r = _r()
     t = r["Table"]("t")
